@@ -737,6 +737,16 @@ func bucketOf(n int) string {
 	return ">162"
 }
 
+// withIDs returns a copy of the history that also spells out the derived ids.
+func withIDs(h *history) history {
+	hh := *h
+	hh.IDs = nil
+	for _, id := range poolIDs(hx.UnHex(h.Local), h.Pool) {
+		hh.IDs = append(hh.IDs, hx.Hex(id))
+	}
+	return hh
+}
+
 func record(c *hx.Ctx, h *history, o *hobs) {
 	c.Eval()
 	c.Count("history:" + h.Kind)
@@ -747,7 +757,7 @@ func record(c *hx.Ctx, h *history, o *hobs) {
 		c.Count("result:" + r.K)
 	}
 	for _, f := range o.Fails {
-		c.Fail(f.Class, f.Clause, h, map[string]interface{}{"after_call": f.At, "got": f.Got}, f.Want)
+		c.Fail(f.Class, f.Clause, withIDs(h), map[string]interface{}{"after_call": f.At, "got": f.Got}, f.Want)
 	}
 	if o.NBuckets >= 2 {
 		b, _ := json.Marshal(h)
@@ -756,7 +766,7 @@ func record(c *hx.Ctx, h *history, o *hobs) {
 	c.Sample(map[string]interface{}{"kind": h.Kind, "size": h.Size, "calls": len(h.Ops), "peers": len(h.Pool), "buckets": o.NBuckets, "most_buckets_created_by_one_update": o.MaxDepth})
 	res, ok := coqRes(o.Res)
 	if !ok {
-		c.Fail("callback-mismatch", "Update/Remove result and the PeerAdded/PeerRemoved callbacks do not fit together", h, o.Res, "added<->PeerAdded(id), removed<->PeerRemoved(id)")
+		c.Fail("callback-mismatch", "Update/Remove result and the PeerAdded/PeerRemoved callbacks do not fit together", withIDs(h), o.Res, "added<->PeerAdded(id), removed<->PeerRemoved(id)")
 		return
 	}
 	var fin []string
@@ -799,7 +809,7 @@ func runBatch(c *hx.Ctx, hs []history, ids []idCase, timeout time.Duration) {
 			if strings.Contains(r.stderr, "stack overflow") || strings.Contains(r.stderr, "stack exceeds") {
 				why = "unbounded recursion (stack overflow)"
 			}
-			c.Fail("no-return", "a call of the history did not return: "+why, hs[r.begun],
+			c.Fail("no-return", "a call of the history did not return: "+why, withIDs(&hs[r.begun]),
 				map[string]interface{}{"exit": r.exitErr, "timed_out": r.timedOut, "output": r.stderr}, "every call returns")
 			c.Note(fmt.Sprintf("child stopped at history %d of %d; the remaining ones were not run", r.begun, len(hs)))
 		} else {
@@ -858,13 +868,13 @@ func Run(c *hx.Ctx) {
 	probeReturns(c, probeNonPositive(0), 30*time.Second)
 	probeReturns(c, probeNonPositive(-1), 30*time.Second)
 
-	n := c.N(420, 5000)
+	n := c.N(300, 4000)
 	kinds := []string{"random", "close", "close", "deep", "churn", "full", "close"}
 	for i := 0; i < n; i++ {
 		hs = append(hs, genHistory(c, kinds[i%len(kinds)]))
 	}
 	var ids []idCase
-	for i := 0; i < c.N(300, 3000); i++ {
+	for i := 0; i < c.N(200, 2000); i++ {
 		ids = append(ids, genIdCase(c))
 	}
 	// batches, so that one non-returning history does not hide the others
